@@ -383,6 +383,10 @@ class Run:
                 raise EngineError(f"cannot coerce {v.ty} to {ty}")
             inner = self.coerce(v, ty.inner)
             return Val(ty, ty.some(inner.t))
+        if isinstance(v.ty, TOpt) and ty is TAny:
+            # an Optional flowing into a dynamically typed place: None is just another value
+            inner = ops.to_pyval(self, Val(v.ty.inner, v.ty.get(v.t)))
+            return Val(TAny, z3.If(v.ty.is_none(v.t), TAny.sort().NoneV, inner.t))
         if isinstance(v.ty, TOpt):
             # use of Optional[T] where T is needed: the declared type says it cannot be None here
             if not self.spec:
